@@ -35,6 +35,7 @@ public:
     SigVersion sigver;
     CScript script;
     CScript successor_script;
+    bool spends_empty_scriptpubkey{false}; ///< legacy spend of an output whose scriptPubKey is empty: the script of the session is a scriptSig all the same
     std::vector<valtype> stack;
     BaseSignatureChecker* checker;
     ScriptError error;
